@@ -887,7 +887,7 @@ def run(ctx: vlib.Ctx):
 
     # ---------------- 1. groups: a tree, a second materialisation of it, and its single edits
     groups = []   # list of (specs, trees, labels)
-    n_groups = ctx.budget(180, 2500)
+    n_groups = ctx.budget(180, 2000)
     for gi in range(n_groups):
         T, pool = gen_tree(rng, outside=(rng.random() < 0.10))
         alg = rng.choice(ALGS)
@@ -1119,11 +1119,16 @@ def run(ctx: vlib.Ctx):
                       for g in groups for t in g[1][2:]}
     nodes = [n for t in all_trees for _, n in walk(t)]
     cov["evaluations"] = evals
-    cov["distinct_nontrivial"] = len(distinct_pairs) + dom_pairs
-    cov["rule"] = ("distinct_nontrivial = distinct (tree, single edit of it) pairs judged by the oracle + all unordered pairs of "
-                   "distinct outside-free trees of the exhaustive small domain (injectivity checked by grouping on the result); "
-                   "evaluations = calls of dir_hashsums / hashsum functions on the real code")
-    cov["exhaustive"] = "small domain only: every chain-free tree over the top-level names with 14+ node choices each"
+    cov["distinct_nontrivial"] = len(distinct_pairs) + inside
+    cov["rule"] = ("generated trees (<= 4 levels, files/links/dirs, 3 contents per tree so that equal files are frequent) each "
+                   "materialised twice (spelling, order, mtimes, base name differ) and once per applicable single-edit kind, plus "
+                   "one-file trees for every size around the block boundaries; distinct_nontrivial = distinct (tree, single edit "
+                   "of it) pairs judged by the oracle (the two trees differ as directory content) + distinct outside-free trees "
+                   "of the small domain, each compared with every other one by grouping on the result (pair count: "
+                   "input_distribution.small_domain_pairs); evaluations = calls of dir_hashsums / hashing functions on the real code")
+    cov["exhaustive"] = False
+    cov["exhaustive_part"] = ("small domain: every chain-free tree over the top-level names a,b (quick) / a,b,c (thorough) with "
+                              "13-15 node choices per name; dicts equal <=> trees equal over all pairs")
     cov["input_distribution"] = {
         "groups": len(groups), "materialisations": sum(len(g[0]) for g in groups),
         "distinct_trees": len(distinct_trees), "small_domain_trees": len(dom), "small_domain_pairs": dom_pairs,
